@@ -231,10 +231,6 @@ Fixpoint conv (ideal ideal_s : bool) (fuel : nat) (v : jsv) (t : gty) : cres :=
               | inr gs => CV (GVSlice gs)
               | inl r => r
               end
-          | JFun n =>
-              (* any object with a numeric length that is not an Array: a slice of that many
-                 zero values (runtime.go, reflect.Slice case); the property asks for a TypeError *)
-              if ideal then CE 6 else CV (GVSlice (repeat (zero fuel e) (Z.to_nat n)))
           | _ => CE 6
           end
       | TMap e =>
@@ -388,27 +384,51 @@ Definition cb_call (idn ids : bool) (rt : cbty) (r : cbret) : cres :=
 Inductive rcall := RCall (f : Z) (args : list rarg)
 with rarg :=
 | RVal (v : Z)                          (* a plain value *)
-| RRe (inner : list rcall) (v : Z).     (* runs the inner calls, then yields v *)
+| RRe (inner : list rcall) (v : Z)      (* runs the inner calls, then yields v *)
+| RReFail (inner : list rcall).         (* runs the inner calls, then the conversion fails with a TypeError
+                                           (an object that only has a length getter, given for a slice parameter) *)
 
-Definition rarg_val (a : rarg) : Z := match a with RVal v => v | RRe _ v => v end.
+Definition rarg_val (a : rarg) : Z := match a with RVal v => v | RRe _ v => v | RReFail _ => 0 end.
 
-(* the log of (function, received values): arguments are converted left to
-   right, each nested call completes (and is logged) before the conversion of
-   the argument that triggered it returns; the outer call is logged last, with
-   ITS OWN argument values *)
-Fixpoint ev_call (fuel : nat) (c : rcall) : list (Z * list Z) :=
+(* a sequence of calls; the first failure aborts the rest *)
+Section Seq.
+Variable ev : rcall -> list (Z * list Z) * bool.
+Fixpoint ev_seq (cs : list rcall) : list (Z * list Z) * bool :=
+  match cs with
+  | [] => ([], true)
+  | c :: r =>
+      let '(l, ok) := ev c in
+      if ok then let '(l2, ok2) := ev_seq r in (l ++ l2, ok2) else (l, false)
+  end.
+(* the conversion of the arguments, left to right *)
+Fixpoint ev_args (l : list rarg) : list (Z * list Z) * bool :=
+  match l with
+  | [] => ([], true)
+  | RVal _ :: r => ev_args r
+  | RRe inner _ :: r =>
+      let '(l1, ok) := ev_seq inner in
+      if ok then let '(l2, ok2) := ev_args r in (l1 ++ l2, ok2) else (l1, false)
+  | RReFail inner :: _ => let '(l1, _) := ev_seq inner in (l1, false)
+  end.
+End Seq.
+
+(* the log of (function, received values), and whether the call completed:
+   arguments are converted left to right, each nested call completes (and is
+   logged) before the conversion of the argument that triggered it returns;
+   the outer call is logged last, with ITS OWN argument values; a failed
+   conversion aborts the call (it is never logged) and everything around it *)
+Fixpoint ev_call (fuel : nat) (c : rcall) : list (Z * list Z) * bool :=
   match fuel with
-  | O => []
+  | O => ([], true)
   | S f =>
       match c with
       | RCall fn args =>
-          flat_map (fun a => match a with
-                             | RVal _ => []
-                             | RRe inner _ => flat_map (ev_call f) inner
-                             end) args
-          ++ [(fn, map rarg_val args)]
+          let '(lg, ok) := ev_args (ev_call f) args in
+          if ok then (lg ++ [(fn, map rarg_val args)], true) else (lg, false)
       end
   end.
+
+Definition ev_script (fuel : nat) (cs : list rcall) : list (Z * list Z) * bool := ev_seq (ev_call fuel) cs.
 
 (* ---- structural equality of observations ---- *)
 Fixpoint gv_eqb (a b : gv) : bool :=
